@@ -27,7 +27,7 @@ var c01Plan = []planEntry{
 func init() {
 	register(&Check{
 		ID:   "C01",
-		Rule: "every token sequence up to the stated length over each declared alphabet, and every member of the parametric families t^k / t1^k t2^k, is parsed through Parse (caller's buffer with sentinel-filled spare capacity) and through NewBlockParser+NextBlock (one full read; for inputs up to 64 bytes also one byte per read and all data together with io.EOF; for inputs up to 24 bytes also every single-cut read schedule); non-trivial = >=2 root blocks, or a NUL / CR in the input, or leading blank lines",
+		Rule: "every token sequence up to the stated length over each declared alphabet, and every member of the parametric families t^k / t1^k t2^k, is parsed through Parse (caller's buffer with sentinel-filled spare capacity) and through NewBlockParser+NextBlock (one full read; for inputs up to 64 bytes also one byte per read and all data together with io.EOF; for inputs up to 24 bytes also every single-cut read schedule); inputs with LF and without CR are also parsed with every LF replaced by CRLF and by CR (Parse, one full read, one-byte reads); non-trivial = >=2 root blocks, or a NUL / CR in the input, or leading blank lines",
 		Assumptions: []string{
 			"line numbering reference: a line ending is LF, CRLF or a CR not followed by LF (written from the statement, not from lineCount)",
 			"equality of streaming and in-memory results under arbitrary read schedules and reader faults is C08's subject; here the tiling statement itself is checked on each streamed result",
@@ -141,6 +141,21 @@ func c01Driver(x *X, in []byte) {
 				x.Count("streamed_single_cut_schedules")
 			}
 		}
+	}
+
+	// The same document with every LF spelled CRLF and spelled CR: the alphabets
+	// that reach reference definitions, lists and headings are written with LF
+	// only, and where a block ends relative to a two-byte line ending is decided
+	// separately in every block rule.
+	if bytes.IndexByte(in, '\n') >= 0 && bytes.IndexByte(in, '\r') < 0 && len(in) <= 64 {
+		for _, eol := range []string{"\r\n", "\r"} {
+			v := bytes.ReplaceAll(in, []byte{'\n'}, []byte(eol))
+			vb, _ := cm.Parse(clone(v))
+			c01Tiling(x, v, vb, "parse/eol-variant")
+			c01Stream(x, v, nil, "stream/eol-variant")
+			c01Stream(x, v, []int{1}, "stream/eol-variant/1-byte-reads")
+		}
+		x.Count("inputs_also_as_crlf_and_cr")
 	}
 
 	if len(blocks) >= 2 {
